@@ -16,6 +16,17 @@ from contracts.tasks_keywords import compile_assumptions, strengthen_iff
 urljoin_f = z3.Function("urljoin", smt.S, smt.S, smt.S)
 
 
+class AnyTable:
+    """VALIDATORS in exit-path analysis: which keyword is looked up does not matter, only whether a
+    function is found."""
+
+
+def x_method_hook(I, st, obj, name, args, kwargs, node):
+    if isinstance(obj, AnyTable) and name == "get":
+        return [(st.fork(), KwFunc("<any>", "<any>")), (st.fork(), lift(None))]
+    return None
+
+
 class KwFunc:
     """A keyword function as found in VALIDATORS: the table entry (keyword -> function)."""
     def __init__(self, k, fkey):
@@ -47,6 +58,12 @@ def kw_call_hook(I, st, f, args, kwargs, node):
     scope = st.ghost["scope"]
     o = core.ops_for(d, scope)
     s = st
+    if ctx.config.get("x_mode"):
+        # exit-path analysis: the keyword function's generator either produces errors or raises while
+        # being driven; its own contract makes its net effect on the scope stack zero at every exit
+        emp = z3.Bool("kw_empty!%d" % ctx.new_oid())
+        gen = kw_gen(f.k, scope, value, instance, schema, emp)
+        return branch(ctx, st, [(None, gen), (None, Raised(ExcVal("CalleeExc", {}, origin="kw:" + f.k)))])
     if f.k == "$ref":
         emp = core.Vref(scope, value.t, instance.t)
     elif f.k == "format":
@@ -87,6 +104,15 @@ class PushScope(core.Contract):
     def apply(self, I, st, args, kwargs, fref):
         s = st.fork()
         stack = s.ghost.get("scopes", ())
+        if self.which == "push" and I.ctx.config.get("x_mode"):
+            # urljoin (through the cache) may raise *before* anything is appended
+            s.ghost["scopes"] = stack + (s.ghost["scope"],)
+            s.ghost["scope"] = z3.String("pushed!%d" % I.ctx.new_oid())
+            s.ghost["depth"] = s.ghost["depth"] + 1
+            return [(s, lift(None)), (st.fork(), Raised(ExcVal("ValueError", {}, origin="urljoin")))]
+        if self.which == "pop" and I.ctx.config.get("x_mode"):
+            I.ctx.obligations.append(core.Obligation("%s/X/no-underflow#%d" % (st.unit.key, I.ctx.new_oid()), "X", st.pc,
+                                                     z3.simplify(st.ghost["depth"]) >= 1, note="pop_scope only after a matching push_scope in the same frame"))
         if self.which == "push":
             a = args[1]
             at = a.t if isinstance(a, SStr) else sval(a.t)
@@ -105,6 +131,22 @@ class PushScope(core.Contract):
             s.ghost["depth"] = s.ghost["depth"] - 1
             s.ghost["events"] = s.ghost.get("events", ()) + ("pop",)
         return [(s, lift(None))]
+
+
+class ResolveX(core.Contract):
+    """RefResolver.resolve(ref) for exit-path analysis: returns (url, document) or raises
+    RefResolutionError; no effect on the scope stack either way (C07: proved of its body by the
+    resolver tasks)."""
+    key = "validators:RefResolver.resolve"
+
+    def apply(self, I, st, args, kwargs, fref):
+        n = I.ctx.new_oid()
+        url = SStr(z3.String("resolved_url!%d" % n))
+        doc = SV(z3.Const("resolved_doc!%d" % n, V))
+        s = st.fork()
+        from pyvc.interp import add_lemma
+        add_lemma(s, z3.And(core.WF[I.ctx.config["vm"].d](doc.t), smt.isjson(doc.t)))
+        return [(s, PyTuple([url, doc])), (st.fork(), Raised(ExcVal("RefResolutionError", {}, origin="resolve")))]
 
 
 def rebase(d, B, s):
@@ -386,6 +428,86 @@ class CoreTask:
         res["paths"] = n
         self.finish(res, ctx, obls)
 
+    def _x_finish(self, res, ctx, outs, B):
+        obls = list(ctx.obligations)
+        n = 0
+        for s, ctl in outs:
+            n += 1
+            kind_ = "normal" if ctl[0] == "return" else "raise:%s" % getattr(ctl[1], "cls", "?")
+            origin = getattr(ctl[1], "origin", "") if ctl[0] == "raise" else ""
+            obls.append(core.Obligation("%s/X/exit#%d:%s%s" % (self.name, n, kind_, "@" + origin if origin else ""), "X", s.pc,
+                                        z3.simplify(s.ghost["depth"]) == 0,
+                                        note="pushes == pops on the %s exit%s" % (kind_, " (" + origin + ")" if origin else "")))
+        res["paths"] = len(outs)
+        self.finish(res, ctx, obls)
+
+    def _run_iter_errors_x(self, res):
+        """C07(b): on every exit of iter_errors - exhaustion, an exception of a keyword function or of
+        push_scope, GeneratorExit delivered at the yield - the scope stack has its entry depth."""
+        repo, ctx, st, vm, validator, I = self.setup(no_callee_exc=False)
+        ctx.config["x_mode"] = True
+        ctx.genexit = True
+        ctx.config["method_hook"] = x_method_hook
+        st.heap[(validator.oid, "VALIDATORS")] = AnyTable()
+        del ctx.contracts["validators:create.Validator.iter_errors"]
+        unit = repo.unit("validators:create.Validator.iter_errors")
+        res["source_hash"] = unit.source_hash()
+        res["function"] = "validators:create.Validator.iter_errors"
+        instance, schema = SV(z3.Const("instance", V)), SV(z3.Const("schema", V))
+        st.pc.extend([smt.isjson(instance.t), smt.isjson(schema.t), core.WF[self.d](schema.t),
+                      core.meta_eval(repo, self.d, schema, keys=[drafts.ID_KEY[self.d], "$ref"])])
+        st.unit = unit
+        st.closure = ctx.config["create_closure"]
+        outs = I.run_unit(unit, st, [validator, instance, schema], {})
+        self._x_finish(res, ctx, outs, st.ghost["scope"])
+
+    def _run_ref_x(self, res):
+        """C07(b) for the `$ref` keyword function: resolve() raises before anything is pushed; the
+        pushed scope is popped on exhaustion, on an exception of the sub-validation, on GeneratorExit."""
+        repo, ctx, st, vm, validator, I = self.setup(no_callee_exc=False)
+        ctx.config["x_mode"] = True
+        ctx.genexit = True
+        ctx.config["hasattr_hook"] = lambda I_, st_, obj, name: (isinstance(obj, ObjVal) and obj.cls == "RefResolver" and
+                                                             ("validators:RefResolver.%s" % name) in I_.repo.units) or None
+        ctx.contracts["validators:RefResolver.resolve"] = ResolveX()
+        key = tables_mod.draft_tables(repo)[self.d].keywords["$ref"]
+        unit = repo.unit(key)
+        res["source_hash"] = unit.source_hash()
+        res["function"] = key
+        instance, schema, ref = SV(z3.Const("instance", V)), SV(z3.Const("schema", V)), SV(z3.Const("ref", V))
+        st.pc.extend([smt.isjson(instance.t), smt.isjson(schema.t), kind(ref.t) == K_STR])
+        st.unit = unit
+        outs = I.run_unit(unit, st, [validator, ref, instance, schema], {})
+        self._x_finish(res, ctx, outs, st.ghost["scope"])
+
+    def _run_scope_cm_x(self, res):
+        """C07(b): RefResolver.in_scope / resolving (context managers): the pushed scope is popped when
+        the with-body returns, raises, or the generator is closed."""
+        all_outs = []
+        for meth in ("in_scope", "resolving"):
+            repo, ctx, st, vm, validator, I = self.setup(no_callee_exc=False)
+            ctx.config["x_mode"] = True
+            ctx.config["throw_at_yield"] = True
+            ctx.genexit = True
+            ctx.contracts["validators:RefResolver.resolve"] = ResolveX()
+            unit = repo.unit("validators:RefResolver.%s" % meth)
+            res["function"] = "validators:RefResolver.in_scope+resolving"
+            res["source_hash"] = res.get("source_hash", "") + unit.source_hash()
+            arg = SV(z3.Const("arg", V))
+            st.pc.append(kind(arg.t) == K_STR)
+            st.unit = unit
+            outs = I.run_unit(unit, st, [vm.resolver, arg], {})
+            obls = list(ctx.obligations)
+            n = 0
+            for s, ctl in outs:
+                n += 1
+                kind_ = "normal" if ctl[0] == "return" else "raise:%s" % getattr(ctl[1], "cls", "?")
+                origin = getattr(ctl[1], "origin", "") if ctl[0] == "raise" else ""
+                obls.append(core.Obligation("%s/X/%s.exit#%d:%s%s" % (self.name, meth, n, kind_, "@" + origin if origin else ""), "X", s.pc,
+                                            z3.simplify(s.ghost["depth"]) == 0, note="%s: pushes == pops on the %s exit" % (meth, kind_)))
+            res["paths"] += len(outs)
+            self.finish(res, ctx, obls)
+
     def _run_is_type(self, res):
         d = self.d
         repo, ctx, st, vm, validator, I = self.setup()
@@ -439,7 +561,7 @@ def core_tasks(root, timeout_ms=20000, drafts_=(3, 4, 6, 7), which=("iter_errors
     for d in drafts_:
         for w in which:
             t = CoreTask(root, d, w, timeout_ms)
-            t.weight = 40 if w == "iter_errors" else 2
+            t.weight = 40 if w == "iter_errors" else (10 if w.endswith("_x") else 2)
             out.append(t)
     return out
 
